@@ -161,28 +161,49 @@ def check_serialize(ctx):
         if f2 is None:
             raise AnalysisError(f"{fname} not found")
         ctx.fn(f"build_epr.{fname}")
-        loops = [x for x in f2.body if isinstance(x, ast.For)]
-        ok_loop = len(loops) == 1 and A.norm(loops[0].iter) == f"range({A.param_names(f2)[0]}.number)"
+        # one result per requested pair: the constructor is evaluated once per i in range(request.number), as a loop or a comprehension
+        preq, parr = A.param_names(f2)[:2]
+        iters = [(x.target, x.iter, x) for x in ast.walk(f2) if isinstance(x, ast.For)] + [(g.target, g.iter, x) for x in ast.walk(f2) if isinstance(x, ast.ListComp) for g in x.generators]
+        iters = [(t_, it_, x) for t_, it_, x in iters if A.norm(it_) == f"range({preq}.number)" and isinstance(t_, ast.Name)]
+        calls = [(c, x) for t_, it_, x in iters for c in ast.walk(x) if isinstance(c, ast.Call) and A.call_name(c) == cls]
+        ok_loop = len(iters) == 1 and len(calls) == 1
         ctx.check("C11.S", f"{fname}:one-result-per-pair", ok_loop, f"{fname} does not build one result per requested pair", repo.loc(m, f2))
         if not ok_loop:
             continue
-        lp = loops[0]
-        iv = lp.target.id
-        bd = {st.targets[0].id: st.value for st in lp.body if isinstance(st, ast.Assign) and isinstance(st.targets[0], ast.Name)}
-        base_ok = "base" in bd and A.norm(bd["base"]) in (f"{iv}*{lenname}", f"{lenname}*{iv}")
-        ctx.check("C11.S", f"{fname}:pair-i-starts-at-i*LEN", base_ok, f"pair i is read from base `{src(bd.get('base')) if 'base' in bd else None}`; expected i * {lenname}", repo.loc(m, lp))
-        calls = [c for c in A.calls_in(lp) if A.call_name(c) == cls]
-        if len(calls) != 1:
-            ctx.error("C11.S", f"{fname}: {cls}(...) construction not found")
-            continue
-        for k, v in A.kwargs_of(calls[0]).items():
+        iv = iters[0][0].id
+        d2 = A.single_defs(f2)
+        d2.update({st.targets[0].id: st.value for st in ast.walk(iters[0][2]) if isinstance(st, ast.Assign) and isinstance(st.targets[0], ast.Name)})
+        length = ev.try_eval(ast.Name(id=lenname, ctx=ast.Load()), m)
+
+        def offset_fn(e):
+            """value of the index expression for i = 0, 1, 2, 5 (None when it cannot be evaluated)"""
+            e = A.expand(e, {k_: v_ for k_, v_ in d2.items() if k_ != iv})
+            env = {}
+            for x in ast.walk(e):
+                if isinstance(x, ast.Name) and x.id.isupper():
+                    env[x.id] = ev.try_eval(x, m)
+            try:
+                return [G.peval(e, dict(env, **{iv: k_})) for k_ in (0, 1, 2, 5)]
+            except Unknown:
+                return None
+
+        firsts = []
+        for k, v in A.kwargs_of(calls[0][0]).items():
             if k not in RESULT_ATTR_SLOT:
                 continue
-            want = f"array.get_future_index(base+{fam}{RESULT_ATTR_SLOT[k].upper()})"
-            got = A.norm(v).replace(A.param_names(f2)[1], "array")
-            got = got.replace("DIRECTONIALITY", "DIRECTIONALITY")
-            ctx.check("C11.S", f"{fname}:{k}", got == want, f"result attribute `{k}` reads `{src(v)}`; expected slot {fam}{RESULT_ATTR_SLOT[k].upper()} of pair i", repo.loc(m, v),
+            slotname = f"{fam}{RESULT_ATTR_SLOT[k].upper()}"
+            slot_val = ev.try_eval(ast.Name(id=slotname, ctx=ast.Load()), m)
+            if slot_val is None:
+                slot_val = ev.try_eval(ast.Name(id=slotname.replace("DIRECTIONALITY", "DIRECTONIALITY"), ctx=ast.Load()), m)
+            got = None
+            if isinstance(v, ast.Call) and A.norm(v.func) == f"{parr}.get_future_index" and len(v.args) == 1:
+                got = offset_fn(v.args[0])
+            want = [k_ * length + slot_val for k_ in (0, 1, 2, 5)] if isinstance(length, int) and isinstance(slot_val, int) else None
+            if got is not None:
+                firsts.append(got[0] - (slot_val or 0) if isinstance(got[0], int) else None)
+            ctx.check("C11.S", f"{fname}:{k}", got is not None and got == want, f"result attribute `{k}` reads `{src(v)}` (indices {got} for pairs 0, 1, 2, 5); expected slot {slotname} of pair i, i.e. {want}", repo.loc(m, v),
                       sample={"result": cls, "attribute": k, "slot": RESULT_ATTR_SLOT[k]})
+        ctx.check("C11.S", f"{fname}:pair-i-starts-at-i*LEN", bool(firsts) and all(f_ == 0 for f_ in firsts), f"pair 0 is not read from the start of the array (offsets {firsts})", repo.loc(m, f2), trivial=True)
 
 
 def enum_uses(repo, m, fn, param) -> Dict[str, Set[str]]:
